@@ -487,6 +487,28 @@ func (fc *fileCtx) walk(opt Options) {
 						}
 					}
 				}
+				if sel, ok := x.Fun.(*ast.SelectorExpr); ok {
+					if sl := fc.info.Selections[sel]; sl != nil && sl.Kind() == types.MethodVal {
+						if f, ok := sl.Obj().(*types.Func); ok && f.Pkg() != nil && f.Pkg().Path() == "golang.org/x/sync/errgroup" {
+							fn := map[string]string{"Go": "EGGo", "Wait": "EGWait", "SetLimit": "EGSetLimit"}[f.Name()]
+							switch {
+							case fn == "":
+								fc.fail(x.Pos(), "unsupported: errgroup.Group.%s", f.Name())
+							case len(sl.Index()) > 1:
+								fc.fail(x.Pos(), "unsupported: promoted errgroup.Group method through embedding")
+							default:
+								pre, post := fc.addrOf(sel.X, sel)
+								fc.site("sync", x.Pos(), fc.funcName(stack))
+								fc.insert(sel.X.Pos(), "gcsimrt."+fn+"("+pre)
+								sep := ""
+								if len(x.Args) > 0 {
+									sep = ", "
+								}
+								fc.replace(sel.X.End(), x.Lparen+1, post+sep)
+							}
+						}
+					}
+				}
 				if recv, typ, method, ok := fc.syncMethod(x); ok {
 					sel := x.Fun.(*ast.SelectorExpr)
 					fn := ""
